@@ -3,6 +3,7 @@
 let channels : (string * ((string * string) list -> string)) list = [
   ("acc", Chan_acc.run);
   ("art", Chan_art.run);
+  ("codes", Chan_codes.run);
   ("clistep", Chan_art.run_step);
   ("flags", Chan_flags.run_flags);
   ("jprops", Chan_flags.run_jprops);
